@@ -152,6 +152,16 @@ pub fn run(ctx: &Ctx) -> i32 {
     big.push((format!("l{} halt\n", "x".repeat(100_000)), false));
     big.push((format!("{}\n", "; é\n".repeat(50_000)), false));
     big.push((".blkw #-1\nhalt\n".into(), false));
+    // every statement shape right at the end of the 16-bit address space: n words of padding,
+    // then one more statement (the line counter is about to wrap)
+    for pad in ["xFFFC", "xFFFD", "xFFFE", "xFFFF"] {
+        for tail in ["br #0", "brz #-1", "ld r0 #1", "ldi r1 #-2", "lea r2 #-2", "st r3 #0", "sti r4 #5", "jsr #0", "jsr #-1024", "add r0 r0 #1", "ldr r0 r1 #-1", ".fill x1", ".blkw 2", ".stringz \"ab\"", "halt", "trap x25", "lbl halt", "br lbl\nlbl halt", "lbl halt\nbr lbl", ".break\nhalt", ".orig x0", "halt\nhalt\nhalt"] {
+            big.push((format!(".blkw {pad}\n{tail}\n"), false));
+            big.push((format!("start halt\n.blkw {pad}\n{tail}\nbr start\n"), false));
+        }
+        big.push((format!(".blkw {pad}\ncall f\nf rets\n"), true));
+        big.push((format!(".blkw {pad}\npush r0\n"), true));
+    }
     let big = std::sync::Arc::new(big);
     {
         let b = big.clone();
